@@ -38,15 +38,20 @@ func InterpolateInExponent[G algebra.PrimeGroupElement[G, F], F algebra.PrimeFie
 	}
 
 	group := algebra.StructureMustBeAs[algebra.PrimeGroup[G, F]](ys[0].Structure())
+	field := algebra.StructureMustBeAs[algebra.PrimeField[F]](xs[0].Structure())
 	coeffs := make([]G, 0, len(xs))
 	for c := range xs {
 		num := group.OpIdentity()
 		for r, y := range ys {
-			m, err := denMatrixSquare.Minor(r, c)
-			if err != nil {
-				return nil, errs.Wrap(err).WithMessage("could not compute minor")
+			// the minor of a 1x1 matrix is the empty matrix, whose determinant is one
+			d := field.One()
+			if len(xs) > 1 {
+				m, err := denMatrixSquare.Minor(r, c)
+				if err != nil {
+					return nil, errs.Wrap(err).WithMessage("could not compute minor")
+				}
+				d = m.Determinant()
 			}
-			d := m.Determinant()
 			if (r+c)%2 != 0 {
 				d = d.Neg()
 			}
